@@ -17,7 +17,7 @@ def describe(c):
     if c["mode"] == "time":
         return "record time %s written as line %r" % (s(c["in"]), line)
     if c["mode"] == "source":
-        return "source enabled, call site in a file with an unusual name (%s logger): line tail %r" % (c["pos"], line)
+        return "source enabled, Logger.%s called at %s (%s logger): line tail %r" % (c.get("method", "Info"), bytes(c["in"]).decode("latin1"), c["pos"], line)
     if c["mode"] == "values":
         return "value kind %s (%s, source=%s): line tail %r" % (c["kind"], c["where"], c["source"], line)
     def f(nodes):
@@ -65,7 +65,7 @@ def run(ctx):
         "rule": "structure: chains x forests of the TLC model on the real Logger (inside derivation trees); values: %d records over 24 value kinds "
                 "(TextMarshaler ok/failing, error, []byte, AnsiString, LogValuer, NaN, forged-field and newline strings ...) x 3 positions x addSource; "
                 "strings: every 1-byte string, 2-byte strings (%s), Unicode scalars (%s) as msg / key / value / With value / group name / outer group of a chain / group attribute / key in a group; "
-                "explicit record times in and out of order; call sites in files with unusual names (source on); "
+                "explicit record times in and out of order; every output method of Logger called from sites with known file:line, incl. files with unusual names (source on); "
                 "non-trivial = string cases the handler had to quote + structures with a derivation chain"
                 % (sum(1 for c in rows if c["mode"] == "values"), "first byte from 23 class representatives" if q else "all 65536",
                    "White_Space / boundary set + 6000 seeded" if q else "all 1112064"),
